@@ -44,6 +44,25 @@ def build_circuit(n_e, n_p, n_c, program):
     return c
 
 
+def edit_circuit(circuit, rng):
+    """Apply one edit that creates nodes in the MIDDLE of a wire (node ids are then no longer in circuit order and the
+    circuit is no longer what a sequence of add() calls gives): group / unwrap rewrites or 1-3 insert_at of a one-qubit
+    gate on a random quantum edge.  Returns the name of the edit; callers project the circuit AFTER the edit."""
+    how = rng.choice(["group", "unwrap", "insert", "insert"])
+    if how == "group":
+        circuit.group_one_qubit_gates()
+    elif how == "unwrap":
+        circuit.unwrap_nodes()
+    else:
+        for _ in range(rng.randint(1, 3)):
+            edges = [e for e in circuit.dag.edges(keys=True) if str(e[2])[0] in "ep"]
+            e = rng.choice(edges)
+            t, i = str(e[2])[0], int(str(e[2])[1:])
+            op = build_op({"k": rng.choice(["Hadamard", "Phase", "SigmaX", "SigmaY", "PhaseDagger"]), "r": [[t, i]], "c": None})
+            circuit.insert_at(op, [e])
+    return how
+
+
 def qindex(reg, reg_type, n_photons):
     """The textbook map: photons first, then emitters (1-based)."""
     return (reg if reg_type == "p" else reg + n_photons) + 1
